@@ -151,6 +151,17 @@ CHECKS = {
         "taste (default + coordinates) and equal the same pure operations applied to the in-memory RefPlot; combines that must be refused must raise and write nothing.",
    note="Controlled in-process pool, identity schedule; events that would repeat a field name are disabled.",
    tech="explicit-state BFS over operation histories with canonical state hashing, real tools as transition function"),
+ "C12": dict(cat="model_checking", design="4/C12",
+   text="For 15 pooled tool configurations (reader selections / iteration / on-demand iterator, taste incl. binary_data and a damaged input, "
+        "colander 2D/3D, combine byfile and bybox, chef, mandoline 2D / 3D array and plotfile, pestle, whip, chk2plt) every pool call's tasks "
+        "(2..4 per call, different data per task) are run in every permutation (= execution and completion order) x lazy|eager consumption, "
+        "deviation bound 1 (2 thorough) over the calls of a run; all schedules must give one observation (return value bits, output tree bytes, "
+        "exception), equal to the serial mode where it exists; audited per-task read/write path sets must be pairwise independent (which is what "
+        "makes task-atomic interleavings exhaustive); every tool is also run free under the REAL multiprocessing / pathos pools and its "
+        "observation must be among the explored ones; a two-cook Cantera history is run under the real pathos pool against its serial result.",
+   note="Pool model = kv/vpool.py (CPython 3.12 multiprocessing.pool, pathos 0.3.5), bound to the real pools by the free-running pass in the parent process; "
+        "> 4 tasks per call would be capped and reported.",
+   tech="stateless schedule exploration (controlled scheduler, deviation-bounded) of the implementation + conformance runs under the real pools"),
 }
 
 NOT_YET = {}
